@@ -19,6 +19,7 @@ import (
 	"fmt"
 	"io"
 	"os"
+	"runtime/debug"
 	"sort"
 	"strconv"
 	"strings"
@@ -194,6 +195,7 @@ type runner struct {
 	failAt  int    // inject errInjected at this I/O call index of the current commit (-1 none)
 	failHit string // what was failed
 	ioCount int
+	onIO    func(kind string, off int64, data []byte)
 }
 
 func newRunner(w *bufio.Writer, dir string, caseID int) *runner {
@@ -293,6 +295,7 @@ func (r *runner) exec(line string) (cont bool) {
 	switch f[0] {
 	case "open":
 		r.opts = parseOpen(f[1:])
+		r.installHooks()
 		db, err := bolt.Open(r.path, 0600, r.opts.boltOptions())
 		if err != nil {
 			r.res("%s", errName(err))
@@ -300,6 +303,7 @@ func (r *runner) exec(line string) (cont bool) {
 		}
 		r.db = db
 		r.res("ok")
+		r.info("open")
 	case "close":
 		if r.db == nil {
 			r.res("nodb")
@@ -328,6 +332,7 @@ func (r *runner) exec(line string) (cont bool) {
 		}
 		r.wtx = tx
 		r.res("ok %d", tx.ID())
+		r.info("beginw")
 	case "beginr":
 		if r.db == nil {
 			r.res("nodb")
@@ -363,8 +368,10 @@ func (r *runner) exec(line string) (cont bool) {
 		r.wtx = nil
 		if len(r.rtx) == 0 {
 			r.res("%s", errName(tx.Commit()))
+			r.info("commit")
 			return true
 		}
+		defer r.info("commit")
 		// Readers are open: a commit that must remap blocks until they close (documented). Run it in its own
 		// goroutine; if it does not finish, close readers (youngest first) until it does and report which.
 		done := make(chan error, 1)
@@ -419,6 +426,7 @@ func (r *runner) exec(line string) (cont bool) {
 		err := r.wtx.Rollback()
 		r.wtx = nil
 		r.res("%s", errName(err))
+		r.info("rollback")
 	case "dump":
 		tx := r.tx(f[1])
 		if tx == nil {
@@ -456,6 +464,65 @@ func (r *runner) exec(line string) (cont bool) {
 		panic("bad op: " + line)
 	}
 	return true
+}
+
+// installHooks makes every I/O call and freelist operation of the DB visible in the trace ("io"/"fl" lines).
+func (r *runner) installHooks() {
+	if !r.ioLog {
+		bolt.VerifHook = nil
+		return
+	}
+	bolt.VerifHook = &bolt.VerifHooks{
+		IO: func(db *bolt.DB, kind string, off int64, data []byte) error {
+			r.ioCount++
+			if r.failAt >= 0 && r.ioCount-1 == r.failAt {
+				r.failHit = kind
+				fmt.Fprintf(r.w, "io %s %d %d FAIL\n", kind, off, len(data))
+				return errInjected
+			}
+			fmt.Fprintf(r.w, "io %s %d %d\n", kind, off, len(data))
+			if r.onIO != nil {
+				r.onIO(kind, off, data)
+			}
+			return nil
+		},
+		FL: func(db *bolt.DB, op string, txid, a, b, ret uint64) {
+			fmt.Fprintf(r.w, "fl %s %d %d %d %d\n", op, txid, a, b, ret)
+		},
+	}
+}
+
+// info emits an "i" line with the published statistics, the live freelist state and the file length.
+func (r *runner) info(what string) {
+	if !r.ioLog || r.db == nil {
+		return
+	}
+	st := r.db.Stats()
+	_, _, fsz := bolt.VerifDBInfo(r.db)
+	line := fmt.Sprintf("i %s free=%d pend=%d flen=%d", what, st.FreePageN, st.PendingPageN, fsz)
+	if f := bolt.VerifDBFreelist(r.db); f != nil {
+		fr, pend, _ := f.State()
+		var ps []string
+		tids := make([]uint64, 0, len(pend))
+		for t := range pend {
+			tids = append(tids, t)
+		}
+		sort.Slice(tids, func(i, j int) bool { return tids[i] < tids[j] })
+		for _, t := range tids {
+			ids := make([]uint64, 0)
+			for _, pa := range pend[t] {
+				ids = append(ids, pa[0])
+			}
+			sort.Slice(ids, func(i, j int) bool { return ids[i] < ids[j] })
+			ps = append(ps, fmt.Sprintf("%d:%s", t, csv(ids)))
+		}
+		pj := strings.Join(ps, ";")
+		if pj == "" {
+			pj = "-"
+		}
+		line += fmt.Sprintf(" flfree=%s flpend=%s", csv(fr), pj)
+	}
+	fmt.Fprintln(r.w, line)
 }
 
 func firstBucket(tx *bolt.Tx) *bolt.Bucket {
@@ -649,17 +716,42 @@ func (r *runner) finish() {
 func runHistory(w *bufio.Writer, dir string, caseID int, header string, lines []string, imgMode string) {
 	fmt.Fprintf(w, "case %d %s\n", caseID, header)
 	r := newRunner(w, dir, caseID)
+	if strings.HasSuffix(imgMode, "+io") {
+		r.ioLog = true
+		imgMode = strings.TrimSuffix(imgMode, "+io")
+	}
 	r.imgMode = imgMode
 	defer r.finish()
 	for _, l := range lines {
-		if !r.exec(l) {
+		if !r.execGuarded(l) {
 			break
 		}
-		if imgMode == "commit" && l == "commit" {
+		if imgMode == "commit" && (l == "commit" || strings.HasPrefix(l, "open ")) {
 			r.exec("img")
 		}
 	}
 	fmt.Fprintln(w, "end")
+	w.Flush()
+}
+
+// execGuarded runs one op under a deadline, with memory faults turned into panics. A broken implementation may
+// loop forever (a reader walking recycled pages) or fault: both are observations attributed to this op.
+func (r *runner) execGuarded(l string) bool {
+	done := make(chan bool, 1)
+	go func() {
+		debug.SetPanicOnFault(true)
+		done <- r.exec(l)
+	}()
+	select {
+	case ok := <-done:
+		return ok
+	case <-time.After(20 * time.Second):
+		fmt.Fprintln(r.w, "r hang")
+		fmt.Fprintln(r.w, "end")
+		r.w.Flush()
+		os.Exit(0) // the stuck goroutine spins forever; the trace records what happened
+		return false
+	}
 }
 
 // ---- shadow model used ONLY to guide generation (the judge is the Coq model) ----
@@ -937,6 +1029,17 @@ func genHistory(r *rng, cfg genCfg, o openOpts) []string {
 		} else {
 			L = append(L, "dump w", "commit")
 			committed = work
+		}
+		// every open reader is re-dumped after every writer event (C02)
+		if cfg.readers {
+			ids := make([]int, 0, len(readers))
+			for id := range readers {
+				ids = append(ids, id)
+			}
+			sort.Ints(ids)
+			for _, id := range ids {
+				L = append(L, fmt.Sprintf("dump r%d", id))
+			}
 		}
 		if cfg.reopen && r.chance(1, 10) {
 			L = append(L, "close", "open "+o.String())
